@@ -20,7 +20,8 @@ incl. around 128 KiB and 4 MiB; layer options; compression level; 1..3 key pairs
 further stages among convert(other layers / keys / level) and repair(intact archive), then negative runs) executed with the \
 `mlar` binary built from the tree. Oracle after `create` and after every stage: `list` prints exactly the given paths; \
 `list -vv` shows the humansize-DECIMAL size and the SHA-256 of each file; `cat`, `extract` (whole archive and one listed \
-name), `to-tar` (parsed with the tar crate) return each file's exact bytes. Negative runs (wrong key, no key, key given for \
+name, into directories that already hold a longer stale copy of a member), `to-tar` (output archives and tar files replace \
+longer stale files in half of the cases) (parsed with the tar crate) return each file's exact bytes. Negative runs (wrong key, no key, key given for \
 an archive without encryption) on list / cat / extract / to-tar / convert / repair must exit non-zero and leave the output \
 file absent or empty. Non-trivial = pipeline with >= 2 stages on a tree with >= 1 empty file or nested directory; distinct \
 = hash of the case";
@@ -174,8 +175,11 @@ fn verify(s: &Scratch, archive: &str, key: Option<&str>, expected: &BTreeMap<Str
     if !full {
         return Ok(());
     }
-    // extract, whole archive
+    // extract, whole archive - into a directory that already holds a longer, stale copy of one member
     let out1 = format!("x-{tag}-all");
+    if let Some((n, data)) = expected.iter().nth(expected.len() / 3) {
+        plant_stale(&d.join(&out1).join(n), data.len())?;
+    }
     let mut a = vec!["extract".to_string(), "-i".into(), archive.into(), "-o".into(), out1.clone()];
     a.extend(keyargs.clone());
     run_ok(&a, d, tag)?;
@@ -189,6 +193,7 @@ fn verify(s: &Scratch, archive: &str, key: Option<&str>, expected: &BTreeMap<Str
     // extract, one listed name
     if let Some((n, data)) = expected.iter().nth(expected.len() / 2) {
         let out2 = format!("x-{tag}-one");
+        plant_stale(&d.join(&out2).join(n), data.len())?;
         let mut a = vec!["extract".to_string(), "-i".into(), archive.into(), "-o".into(), out2.clone()];
         a.extend(keyargs.clone());
         a.push("--".into());
@@ -199,8 +204,9 @@ fn verify(s: &Scratch, archive: &str, key: Option<&str>, expected: &BTreeMap<Str
             _ => return Err(format!("{tag}: `mlar extract -- {n:?}` did not produce the file's bytes")),
         }
     }
-    // to-tar
+    // to-tar (over a longer stale output file)
     let tarf = format!("t-{tag}.tar");
+    plant_stale(&d.join(&tarf), 3 * expected.values().map(|v| v.len() + 1024).sum::<usize>())?;
     let mut a = vec!["to-tar".to_string(), "-i".into(), archive.into(), "-o".into(), tarf.clone()];
     a.extend(keyargs);
     run_ok(&a, d, tag)?;
@@ -218,6 +224,12 @@ fn verify(s: &Scratch, archive: &str, key: Option<&str>, expected: &BTreeMap<Str
         return Err(format!("{tag}: `mlar to-tar` holds {:?}, expected {:?}", got.iter().map(|(k, v)| (k.clone(), v.len())).collect::<Vec<_>>(), expected.iter().map(|(k, v)| (k.clone(), v.len())).collect::<Vec<_>>()));
     }
     Ok(())
+}
+
+/// an earlier, longer file at an output location: every command opens its outputs anew, nothing of it may survive
+fn plant_stale(p: &Path, len: usize) -> Result<(), String> {
+    std::fs::create_dir_all(p.parent().unwrap()).map_err(|e| format!("HARNESS: {e}"))?;
+    std::fs::write(p, vec![0x5au8; len + 777]).map_err(|e| format!("HARNESS: {e}"))
 }
 
 /// a command that must be refused: non-zero exit and no output content
@@ -294,6 +306,9 @@ fn oracle(c: &Case, st: &mut Stats) -> Result<(), String> {
     if effective_layers(&cur) & 1 != 0 && recipients(&cur, nkeys).is_empty() {
         cur.keys |= 1;
     }
+    if c.reader_key % 2 == 1 {
+        plant_stale(&d.join("a0.mla"), 2 * expected.values().map(|v| v.len() + 256).sum::<usize>())?;
+    }
     let mut a = vec!["create".to_string(), "-o".into(), "a0.mla".into()];
     layer_args(&cur, &mut a, nkeys);
     a.push("--".into());
@@ -323,6 +338,10 @@ fn oracle(c: &Case, st: &mut Stats) -> Result<(), String> {
             o.keys |= 2;
         }
         let next = format!("a{}.mla", i + 1);
+        if (i as u8 + c.reader_key) % 2 == 1 {
+            // the output archive replaces a longer stale file of that name
+            plant_stale(&d.join(&next), 2 * std::fs::metadata(d.join(&archive)).map(|m| m.len() as usize).unwrap_or(0) + 4096)?;
+        }
         let mut a = vec![cmd.to_string(), "-i".into(), archive.clone(), "-o".into(), next.clone()];
         if let Some(k) = key_for(&cur, c.reader_key.wrapping_add(i as u8)) {
             a.push("-k".into());
